@@ -128,6 +128,8 @@ pub struct Obs {
 pub struct TypedScenario {
     pub chan: Chan,
     pub scripts: Vec<Vec<IK>>,
+    /// the receiver drops every recv() future at its p-th poll and calls recv() again
+    pub recv_cancel: Option<u32>,
 }
 
 impl TypedScenario {
@@ -155,12 +157,26 @@ where
     TB: remoc::RemoteSend,
     RA: remoc::RemoteSend,
 {
-    let ((ca, mut la), (cb, mut lb)) = env.pair(cfg_a, cfg_b, link, &[]).await?;
-    let a = env.spawn("A.base-connect", 1, async move {
+    base_pair_named(env, "A", 1, "B", 2, cfg_a, cfg_b, link).await
+}
+
+/// Like base_pair with explicit endpoint names and port-number tags (further connections of a scenario).
+#[allow(clippy::too_many_arguments)]
+pub async fn base_pair_named<TA, RB, TB, RA>(
+    env: &Env, na: &str, ta: u8, nb: &str, tb: u8, cfg_a: Cfg, cfg_b: Cfg, link: LinkOpts,
+) -> Result<((base::Sender<TA>, base::Receiver<RA>, chmux::Client, chmux::Listener), (base::Sender<TB>, base::Receiver<RB>, chmux::Client, chmux::Listener)), String>
+where
+    TA: remoc::RemoteSend,
+    RB: remoc::RemoteSend,
+    TB: remoc::RemoteSend,
+    RA: remoc::RemoteSend,
+{
+    let ((ca, mut la), (cb, mut lb)) = env.pair_named(na, ta, cfg_a, nb, tb, cfg_b, link, &[]).await?;
+    let a = env.spawn(&format!("{na}.base-connect"), ta, async move {
         let r = base::connect::<TA, RA, codec::Default>(&ca, &mut la).await;
         (r, ca, la)
     });
-    let b = env.spawn("B.base-connect", 2, async move {
+    let b = env.spawn(&format!("{nb}.base-connect"), tb, async move {
         let r = base::connect::<TB, RB, codec::Default>(&cb, &mut lb).await;
         (r, cb, lb)
     });
@@ -194,9 +210,25 @@ enum CarrierNew {
     One(Vec<oneshot::Sender<MsgNew>>),
 }
 
+/// rx.recv(), optionally with every recv future dropped at its p-th poll and retried (at most 60 times in a row).
+macro_rules! recv_maybe_cancelled {
+    ($rx:expr, $p:expr) => {{
+        let mut tries = 0u32;
+        loop {
+            match $p {
+                Some(p) if tries < 60 => match cancel_at($rx.recv(), p).await {
+                    Cancelled::Done(r) => break r,
+                    Cancelled::Cancelled(_) => tries += 1,
+                },
+                _ => break $rx.recv().await,
+            }
+        }
+    }};
+}
+
 impl Scenario for TypedScenario {
     fn id(&self) -> String {
-        format!("c04/{:?}/{:?}", self.chan, self.scripts)
+        format!("c04/{:?}/{:?}/rc{:?}", self.chan, self.scripts, self.recv_cancel)
     }
 
     fn deterministic(&self) -> bool {
@@ -206,6 +238,7 @@ impl Scenario for TypedScenario {
     fn start(&self, env: Env) -> (BoxFuture<'static, ()>, Judge) {
         let obs = shared(Obs::default());
         let (chan, scripts) = (self.chan, self.scripts.clone());
+        let recv_cancel = self.recv_cancel;
         let det = self.deterministic_schedule();
         let o2 = obs.clone();
         let scripts2 = scripts.clone();
@@ -256,7 +289,7 @@ impl Scenario for TypedScenario {
                     let o4 = o2.clone();
                     let r = env.spawn("receiver", 2, async move {
                         loop {
-                            match rx.recv().await {
+                            match recv_maybe_cancelled!(rx, recv_cancel) {
                                 Ok(Some(v)) => record_recv(&o4, v),
                                 Ok(None) => {
                                     o4.lock().unwrap().recv_end = Some("eos".into());
@@ -307,7 +340,7 @@ impl Scenario for TypedScenario {
                             let o4 = o2.clone();
                             env.spawn("receiver", 2, async move {
                                 loop {
-                                    match rx.recv().await {
+                                    match recv_maybe_cancelled!(rx, recv_cancel) {
                                         Ok(Some(v)) => record_recv(&o4, v),
                                         Ok(None) => {
                                             o4.lock().unwrap().recv_end = Some("eos".into());
@@ -335,7 +368,7 @@ impl Scenario for TypedScenario {
                             let o4 = o2.clone();
                             env.spawn("receiver", 2, async move {
                                 loop {
-                                    match rx.recv().await {
+                                    match recv_maybe_cancelled!(rx, recv_cancel) {
                                         Ok(Some(v)) => record_recv(&o4, v),
                                         Ok(None) => {
                                             o4.lock().unwrap().recv_end = Some("eos".into());
@@ -650,9 +683,22 @@ pub fn scenarios(tier: Tier, streamed: bool) -> Vec<Arc<dyn Scenario>> {
     for s in &seqs {
         let mut script = s.clone();
         script.push(IK::Small);
-        out.push(Arc::new(TypedScenario { chan: Chan::Base, scripts: vec![script.clone()] }));
+        out.push(Arc::new(TypedScenario { chan: Chan::Base, scripts: vec![script.clone()], recv_cancel: None }));
         if tier == Tier::Thorough || script.len() <= 4 {
-            out.push(Arc::new(TypedScenario { chan: Chan::Lr, scripts: vec![script.clone()] }));
+            out.push(Arc::new(TypedScenario { chan: Chan::Lr, scripts: vec![script.clone()], recv_cancel: None }));
+        }
+    }
+    // the receiver abandons every recv() at its p-th poll and retries: nothing may be lost, duplicated or turn into an error
+    let rc_scripts: Vec<Vec<IK>> = if streamed {
+        vec![vec![IK::Big, IK::Small], vec![IK::Small, IK::Big, IK::Small], vec![IK::Big, IK::Big, IK::Small], vec![IK::Small, IK::OverRecv, IK::Big, IK::Small]]
+    } else {
+        vec![vec![IK::Small, IK::Small, IK::Small], vec![IK::Small, IK::SerFail(4), IK::Small], vec![IK::Small, IK::Undecodable, IK::Small, IK::Small]]
+    };
+    for script in &rc_scripts {
+        for p in if streamed { vec![1u32, 2, 3, 5, 8, 13] } else { vec![1u32, 2, 3] } {
+            out.push(Arc::new(TypedScenario { chan: Chan::Base, scripts: vec![script.clone()], recv_cancel: Some(p) }));
+            out.push(Arc::new(TypedScenario { chan: Chan::Lr, scripts: vec![script.clone()], recv_cancel: Some(p) }));
+            out.push(Arc::new(TypedScenario { chan: Chan::Mpsc(1), scripts: vec![script.clone()], recv_cancel: Some(p) }));
         }
     }
     // mpsc: two remote senders with failing items at each position, one local sender
@@ -667,23 +713,23 @@ pub fn scenarios(tier: Tier, streamed: bool) -> Vec<Arc<dyn Scenario>> {
             a.push(IK::Small);
             let mut b = s2.clone();
             b.push(IK::Small);
-            out.push(Arc::new(TypedScenario { chan: Chan::Mpsc(2), scripts: vec![a, b, vec![IK::Small, IK::Small]] }));
+            out.push(Arc::new(TypedScenario { chan: Chan::Mpsc(2), scripts: vec![a, b, vec![IK::Small, IK::Small]], recv_cancel: None }));
         }
         let mut a = s1.clone();
         a.push(IK::Small);
-        out.push(Arc::new(TypedScenario { chan: Chan::Mpsc(1), scripts: vec![a.clone()] }));
-        out.push(Arc::new(TypedScenario { chan: Chan::Oneshot, scripts: vec![a] }));
+        out.push(Arc::new(TypedScenario { chan: Chan::Mpsc(1), scripts: vec![a.clone()], recv_cancel: None }));
+        out.push(Arc::new(TypedScenario { chan: Chan::Oneshot, scripts: vec![a], recv_cancel: None }));
     }
     out
 }
 
 pub fn core(_tier: Tier) -> Vec<Arc<dyn Scenario>> {
     vec![
-        Arc::new(TypedScenario { chan: Chan::Base, scripts: vec![vec![IK::Small, IK::Cancel(2), IK::Small, IK::SerFail(4), IK::Small]] }),
-        Arc::new(TypedScenario { chan: Chan::Base, scripts: vec![vec![IK::Cancel(3), IK::Undecodable, IK::Small]] }),
-        Arc::new(TypedScenario { chan: Chan::Mpsc(2), scripts: vec![vec![IK::Small, IK::Small], vec![IK::Cancel(1), IK::Small], vec![IK::Small]] }),
-        Arc::new(TypedScenario { chan: Chan::Lr, scripts: vec![vec![IK::Small, IK::Cancel(2), IK::Small]] }),
-        Arc::new(TypedScenario { chan: Chan::Oneshot, scripts: vec![vec![IK::Small, IK::SerFail(4), IK::Small]] }),
+        Arc::new(TypedScenario { chan: Chan::Base, scripts: vec![vec![IK::Small, IK::Cancel(2), IK::Small, IK::SerFail(4), IK::Small]], recv_cancel: None }),
+        Arc::new(TypedScenario { chan: Chan::Base, scripts: vec![vec![IK::Cancel(3), IK::Undecodable, IK::Small]], recv_cancel: None }),
+        Arc::new(TypedScenario { chan: Chan::Mpsc(2), scripts: vec![vec![IK::Small, IK::Small], vec![IK::Cancel(1), IK::Small], vec![IK::Small]], recv_cancel: None }),
+        Arc::new(TypedScenario { chan: Chan::Lr, scripts: vec![vec![IK::Small, IK::Cancel(2), IK::Small]], recv_cancel: None }),
+        Arc::new(TypedScenario { chan: Chan::Oneshot, scripts: vec![vec![IK::Small, IK::SerFail(4), IK::Small]], recv_cancel: None }),
     ]
 }
 
